@@ -79,8 +79,8 @@ def run(tier, seed):
     trace = os.path.join(W, "conc.ndjson")
     if os.path.exists(trace):
         os.remove(trace)
-    readers = [1, 3, 8] if quick else [1, 2, 3, 4, 5, 6, 7, 8]
-    ops = 1500 if quick else 6000
+    readers = [1, 3, 8] if quick else [1, 2, 3, 4, 6, 8]
+    ops = 1500 if quick else 3000
     n = 0
     for k in KINDS:
         for rd in readers:
